@@ -32,6 +32,9 @@ FAULTS = {'ValueError': InjectedFault, 'StopIteration': StopIteration, 'ZeroDivi
           'KeyboardInterrupt': KeyboardInterrupt, 'SystemExit': SystemExit}
 
 
+RETURNS_NONE = object()      # the failing evaluation returns None (a branch without return statement)
+
+
 class Shared(object):
     wrap = False      # True: every proxy is the only range of a multi-range potential form (as every potable-built function is)
 
@@ -49,6 +52,8 @@ class Proxy(object):
     def __call__(self, r):
         self.shared.count += 1
         if self.shared.count == self.shared.fail_at:
+            if self.shared.ret is RETURNS_NONE:
+                return None
             if self.shared.ret is not None:
                 return self.shared.ret
             raise self.shared.exc('injected failure at evaluation %d' % self.shared.count)
@@ -285,6 +290,8 @@ def cases(tier):
         N, _ref = count_evals(tgt, 4)
         for k in range(1, N + 1):
             out.append(dict(route='api', target=tgt, k=k, n=4, N=N, ret='complex'))
+            if not tgt.startswith('excel'):
+                out.append(dict(route='api', target=tgt, k=k, n=4, N=N, ret='none'))
     # other kinds of sink for the text targets: write-only objects and gzip text streams
     for tgt in API_TARGETS:
         if tgt.startswith('excel'):
@@ -315,11 +322,17 @@ def run_api(case):
         V(viol, 'nondeterministic-evaluation-count', '%s: %d evaluations now, %d when the case list was built' % (tgt, N, case['N']))
         return viol
     exc = FAULTS[case.get('exc', 'ValueError')]
-    ret = complex(1.0, 1.0) if case.get('ret') == 'complex' else None
+    ret = complex(1.0, 1.0) if case.get('ret') == 'complex' else (RETURNS_NONE if case.get('ret') == 'none' else None)
     raised, first, cnt, second = api_run(tgt, k, n, exc, ret=ret, sink_kind=case.get('sink'), wrap=bool(case.get('wrap')))
     if k == 0:
         if raised or first != ref:
             V(viol, 'sink-kind-changes-output:%s' % tgt, '%s written to a %s sink: %s, %d bytes; to a StringIO %d bytes' % (tgt, case.get('sink'), 'raised' if raised else 'returned', len(first), len(ref)))
+        return viol
+    if ret is RETURNS_NONE and not raised:
+        # nothing failed visibly: then the table must at least be complete (as many numbers as the fault-free table), never a shorter one
+        if len(first.split()) != len(ref.split()):
+            V(viol, 'value-dropped-silently:%s' % tgt, '%s: evaluation %d of %d returned None; write() returned normally and emitted %d tokens, the complete table has %d'
+              % (tgt, k, N, len(first.split()), len(ref.split())))
         return viol
     if ret is not None and not raised:
         return viol        # the writer printed the value somehow: not a failed tabulation
